@@ -1,2 +1,39 @@
-(** C07 — persistence never stalls.  Statements only. *)
-From BBS Require Import Common.Sx Persist.PBL Persist.Syncer Run.R07.
+(** C07 — Persistence never stalls: every upload and block release gets
+    committed.  Statements only; proofs are in Persist/PBLProofs.v and
+    Persist/SyncerProofs.v.  The transition system ([Syncer.step], [run]) has
+    one event per atomic step: upload Put / finalizer, PopFront, PushBack, one
+    lock-protected section or I/O completion (success/failure) or timer expiry
+    or channel wait of either syncer loop, clock advance, context
+    cancellation.  [reachable] = reachable by ANY schedule (event list) from
+    the state produced by NewPersistentBlockList + NewPeriodicSyncer, for any
+    persistent state, any allocator answers, any hash seeds. *)
+From BBS Require Import Common.Sx Persist.PBL Persist.PBLProofs Persist.Syncer Persist.SyncerProofs Run.R07.
+Local Open Scope nat_scope.
+
+(** No schedule makes any step panic: in particular no wake-up channel is
+    closed twice, no slice/index goes out of range. *)
+Theorem no_panic : forall cfg alloc oldest init t0 tr,
+  run cfg (init_sys (fst (pbl_new alloc oldest init)) t0) tr <> Some Panic.
+Proof. exact no_panic_all_schedules. Qed.
+Print Assumptions no_panic.
+
+Theorem close_once : forall cfg alloc oldest init t0 s, reachable cfg alloc oldest init t0 s ->
+  NoDup (ch_closed (heap (s_pbl s))).
+Proof. exact close_once_reach. Qed.
+Print Assumptions close_once.
+
+(** The current put wake-up channel is closed exactly while some epoch is not
+    yet synchronized (unabsorbed upload work). *)
+Theorem wakeup_put : forall cfg alloc oldest init t0 s, reachable cfg alloc oldest init t0 s ->
+  (synchronizedEpochs (s_pbl s) < length (epochSeeds (s_pbl s)) -> put_chan_closed (s_pbl s) = true) /\
+  (synchronizedEpochs (s_pbl s) = length (epochSeeds (s_pbl s)) -> put_chan_closed (s_pbl s) = false).
+Proof. exact wakeup_put_reach. Qed.
+Print Assumptions wakeup_put.
+
+(** The current release wake-up channel is closed exactly while some popped
+    block has not been released. *)
+Theorem wakeup_release : forall cfg alloc oldest init t0 s, reachable cfg alloc oldest init t0 s ->
+  (toRelease (s_pbl s) <> [] -> release_chan_closed (s_pbl s) = true) /\
+  (toRelease (s_pbl s) = [] -> release_chan_closed (s_pbl s) = false).
+Proof. exact wakeup_release_reach. Qed.
+Print Assumptions wakeup_release.
